@@ -12,3 +12,28 @@ pub fn vx_languages() -> (r: &'static [(u16, &'static str, &'static [(u16, &'sta
     LANGUAGES
 }
 
+
+// X7 call shim for `s.binary_search_by_key(&k, |t| t.0)` on a slice of tuples whose first field is
+// the u16 key.  std documents the result only for a slice SORTED by the key, so the whole contract
+// is conditional on (strict) sortedness: Ok(i) is the position of k, Err means k is absent.
+pub trait VKey0 { spec fn key0(&self) -> u16; }
+impl VKey0 for (u16, &'static str) { open spec fn key0(&self) -> u16 { self.0 } }
+impl VKey0 for (u16, &'static str, &'static [(u16, &'static str)]) { open spec fn key0(&self) -> u16 { self.0 } }
+pub open spec fn key0_sorted<T: VKey0>(s: Seq<T>) -> bool {
+    forall|a: int, b: int| 0 <= a < b < s.len() ==> (#[trigger] s[a]).key0() < (#[trigger] s[b]).key0()
+}
+#[verifier::external_body]
+pub fn vx_bsearch_key0<T: VKey0>(s: &[T], k: u16) -> (r: Result<usize, usize>)
+    ensures key0_sorted(s@) ==> (match r {
+        Ok(i) => i < s@.len() && s@[i as int].key0() == k,
+        Err(_) => forall|i: int| 0 <= i < s@.len() ==> (#[trigger] s@[i]).key0() != k,
+    })
+{ unimplemented!() }
+
+// TABLE FACT, checked on the real table by the Kani harness language::vk::lang_table_sorted
+// (complete: symbolic positions): the language table and every sublanguage list are strictly
+// sorted by their numeric key.
+pub axiom fn axiom_lang_table_sorted()
+    ensures
+        key0_sorted(lang_table()),
+        forall|i: int| 0 <= i < lang_table().len() ==> key0_sorted((#[trigger] lang_table()[i]).2@);
